@@ -335,14 +335,7 @@ def cfg_fresh_variable(G: CFG, hint: str) -> Variable:
 
     # a fresh variable may not coincide with a terminal either (e.g. the upper case of the terminal '0' is '0')
     V = set(G.V) | set(G.Sigma)
-    if len(G.V) >= 26:
-        index = 0
-        A = Variable(hint)
-        while A in V:
-            A = Variable('{}{}'.format(hint, index))
-            index = index + 1
-        return A
-    else:
+    if len(G.V) < 26:
         if Variable(hint) not in V:
             A = Variable(hint)
             return A
@@ -350,6 +343,13 @@ def cfg_fresh_variable(G: CFG, hint: str) -> Variable:
             if Variable(A) not in V:
                 A = Variable(A)
                 return A
+    # no single letter is left (26 or more variables, or letters that are used as terminals)
+    index = 0
+    A = Variable(hint)
+    while A in V:
+        A = Variable('{}{}'.format(hint, index))
+        index = index + 1
+    return A
 
 
 def cfg_add_new_start_variable_in_place(G: CFG, hint: str = 'S') -> None:
